@@ -528,6 +528,8 @@ public:
 		catch (...)
 		{
 			pvDestroy();
+			mRootNode = nullptr;
+			mNodeParams = nullptr;
 			throw;
 		}
 	}
@@ -562,6 +564,8 @@ public:
 		catch (...)
 		{
 			pvDestroy();
+			mRootNode = nullptr;
+			mNodeParams = nullptr;
 			throw;
 		}
 		if (!mRootNode->IsLeaf())
